@@ -12,7 +12,7 @@ RULE = ("cases = C03's workload (datasets D1-D10 x schemes S1-S3,S6,S7 x algorit
         "first, then Consensus.kemeny_score, and both are compared with the reference score of EVERY returned ranking; "
         "non-trivial = >= 3 elements and a strictly positive true score; distinct = digest of (dataset, scheme, "
         "configuration, flag, seed)")
-ASSUMPTIONS = ["reference model vf/ref.py", "exact comparison on dyadic schemes, 1e-6 relative otherwise (there a score in [-1e-6, 0) is rounding noise, not a negative score)",
+ASSUMPTIONS = ["reference model vf/ref.py", "the statement's tolerance 1e-6: absolute on dyadic schemes (exact arithmetic; covers the solver pool gap 1e-6), relative on decimal schemes (there a score in [-1e-6, 0) is rounding noise, not a negative score)",
                "the documented sentinel -1 in the raw feature means 'not computed yet' and is only counted"]
 SUMMARY_KEYS = ["consensuses", "supplied_scores", "multi_ranking_consensuses", "zero_objective_pulp"]
 CRASH_IS_VIOLATION = False
@@ -23,7 +23,7 @@ def setup(ctx):
     algos.install_ilp_counter()
 
 
-def plan(tier, seed):
+def _plan(tier, seed):
     if tier == "quick":
         return ([{"n_cases": 150, "mode": "A", "hashseed": i % 2} for i in range(6)] +
                 [{"n_cases": 28, "mode": "AD", "hashseed": i % 2} for i in range(3)] +
@@ -32,9 +32,16 @@ def plan(tier, seed):
             [{"n_cases": 250, "mode": "AD", "hashseed": i % 4} for i in range(6)] +
             [{"n_cases": 1000, "mode": "B", "hashseed": i} for i in range(2)])
 
+def plan(tier, seed):
+    """+ one shard running the repository's own tests under the monitors (vf/pytest_plugin.py)"""
+    shards = _plan(tier, seed)
+    if tier == "thorough":
+        shards.append({"kind": "repotests", "n_cases": 0})
+    return shards
+
 
 def gen_case(rng, ctx):
-    case = algos.gen_algo_case(rng, ctx, classes="D1 D2 D3 D3 D4 D5 D6 D7 D7 D8 D9 D10", schemes="S1 S1 S2 S3 S3 S6 S7",
+    case = algos.gen_algo_case(rng, ctx, classes="D1 D2 D3 D3 D4 D5 D6 D7 D7 D8 D9 D10", schemes="S1 S1 S2 S3 S3 S6 S7 S9 S10 S10 S11",
                                nmax=6 if "D" in ctx.mode else 8)
     return case
 
@@ -45,6 +52,18 @@ def family(cfg):
         if cfg.startswith(k):
             return k
     return cfg
+
+
+def within(a, b, exact):
+    """the statement's own tolerance: |reported - true| <= 1e-6 (absolute on exact-arithmetic schemes, where the only
+    legitimate slack is the solver's pool gap; relative on decimal schemes, where float rounding scales with the score)"""
+    fa = real(a)
+    if fa is None:
+        return False
+    fb = float(b)
+    if exact:
+        return abs(fa - fb) <= 1e-6 + 1e-12
+    return abs(fa - fb) <= 1e-6 * max(1.0, abs(fb))
 
 
 def real(x):
@@ -98,7 +117,7 @@ def check_case(case, ctx):
                 if raw is None or real(raw) is None:
                     ctx.violation(f"C04/supplied-score-absent:{fam}", f"{cfg} (at_most_one={one}) stored {raw!r} as "
                                   "the Kemeny score of its consensus", sub, observed=repr(raw), expected=trues[0])
-                elif not common.close(raw, trues[0], exact, 1e-6):
+                elif not within(raw, trues[0], exact):
                     ctx.violation(f"C04/supplied-score-wrong:{fam}", f"{cfg} (at_most_one={one}) supplied a score that "
                                   "is not the true score of its first ranking", sub, observed=raw, expected=trues[0])
             try:
@@ -117,7 +136,7 @@ def check_case(case, ctx):
                               sub, observed=reported, expected=trues[0])
                 continue
             for k, t in enumerate(trues):
-                if not common.close(reported, t, exact, 1e-6):
+                if not within(reported, t, exact):
                     sig = f"C04/reported-score-wrong:{fam}" if k == 0 else f"C04/returned-rankings-differ-in-score:{fam}"
                     ctx.violation(sig, f"{cfg} (at_most_one={one}): reported score is not the true score of returned "
                                   f"ranking #{k} {rankings[k]}", sub, observed=reported, expected=t)
